@@ -3,7 +3,10 @@
 Scans every function of pygaps/characterisation/*.py, pygaps/iast/pgiast.py, pygaps/modelling/__init__.py, pygaps/parsing/{json,csv,aif,excel}.py
 (exporters) and reports, for every parameter or local that (syntactically) holds an isotherm (name contains 'iso' or is 'reference'/'ref'):
   - calls of a MUTATING method on it (convert, convert_pressure, convert_loading, convert_material, convert_temperature),
-  - assignments to one of its attributes or into one of them (`x.attr = ...`, `x.data_raw[...] = ...`),
+  - calls of an in-place container method (setdefault, update, pop, append, sort, ... or any call with inplace=True) on an attribute
+    chain rooted at it (`x.model.params.setdefault(...)`, `x.data_raw.sort_values(..., inplace=True)`), and `del x.attr[...]`,
+  - assignments to one of its attributes or into one of them (`x.attr = ...`, `x.data_raw[...] = ...`), also through a local alias of
+    such an attribute chain (`params = x.model.params; params['t'] = 1`),
 for names that are PARAMETERS of the function (objects the caller handed in), including elements of a parameter iterated in a for loop.
 Output: coq/Gen/PurityGen.v  with  mutating_sites : list (module * function * what).
 Fail-closed: a file that does not parse aborts.  Usage: py2v_purity.py <repo_src_dir> <out_dir>
@@ -14,6 +17,25 @@ import os
 import sys
 
 MUTATING = {'convert', 'convert_pressure', 'convert_loading', 'convert_material', 'convert_temperature'}
+INPLACE = {'setdefault', 'update', 'pop', 'popitem', 'clear', 'append', 'extend', 'insert', 'remove', 'sort', 'reverse', 'fill', 'put',
+           'itemset', 'resize', '__setitem__', '__delitem__', '__setattr__'}
+
+
+FRESH_PROPS = set()
+
+
+def fresh_properties(src):
+    """@property methods of the isotherm classes whose every return value is a freshly built object (dict / comprehension / call /
+    constant): reading them never hands out a part of the isotherm, so changing the result in place is harmless"""
+    out = set()
+    for f in ('baseisotherm', 'pointisotherm', 'modelisotherm'):
+        tree = ast.parse(open(os.path.join(src, 'pygaps/core/%s.py' % f), encoding='utf8').read())
+        for fn in ast.walk(tree):
+            if isinstance(fn, ast.FunctionDef) and any(isinstance(d, ast.Name) and d.id == 'property' for d in fn.decorator_list):
+                rets = [r.value for r in ast.walk(fn) if isinstance(r, ast.Return)]
+                if rets and all(isinstance(r, (ast.Dict, ast.DictComp, ast.ListComp, ast.SetComp, ast.Constant, ast.JoinedStr)) for r in rets):
+                    out.add(fn.name)
+    return out
 
 
 def isoish(name):
@@ -38,29 +60,48 @@ def scan(path, mod):
                     params.add(n.target.id)
         handed = {p for p in params if isoish(p)}
 
-        def visit_expr_stmt(n, live):
-            """record mutating calls / attribute assignments on names that still denote the caller's object"""
+        def root(e):
+            """(root name, chain contains an attribute access) of an attribute / subscript chain without calls"""
+            has_attr = False
+            first = None
+            while isinstance(e, (ast.Attribute, ast.Subscript)):
+                has_attr = has_attr or isinstance(e, ast.Attribute)
+                if isinstance(e, ast.Attribute):
+                    first = e.attr
+                e = e.value
+            if first in FRESH_PROPS:   # x.units... : a fresh dictionary, not a part of x
+                return None, False
+            return (e.id if isinstance(e, ast.Name) else None), has_attr
+
+        def visit_expr_stmt(n, live, views):
+            """record mutating calls / attribute assignments on names that still denote the caller's object (live) or a part of it (views)"""
             for m in ast.walk(n):
-                if isinstance(m, ast.Call) and isinstance(m.func, ast.Attribute) and m.func.attr in MUTATING:
-                    base = m.func.value
-                    while isinstance(base, (ast.Attribute, ast.Subscript)):
-                        base = base.value
-                    if isinstance(base, ast.Name) and base.id in live:
-                        out.append((mod, fn.name, 'call:%s.%s' % (base.id, m.func.attr)))
+                if isinstance(m, ast.Call) and isinstance(m.func, ast.Attribute):
+                    base, has_attr = root(m.func.value)
+                    inplace_kw = any(k.arg == 'inplace' and not (isinstance(k.value, ast.Constant) and k.value.value is False) for k in m.keywords)
+                    if m.func.attr in MUTATING and base in live:
+                        out.append((mod, fn.name, 'call:%s.%s' % (base, m.func.attr)))
+                    elif (m.func.attr in INPLACE or inplace_kw) and ((base in live and has_attr) or base in views):
+                        out.append((mod, fn.name, 'inplace:%s' % ast.unparse(m.func)[:60]))
+            if isinstance(n, ast.Delete):
+                for t in n.targets:
+                    base, has_attr = root(t)
+                    if isinstance(t, (ast.Attribute, ast.Subscript)) and ((base in live and has_attr) or base in views):
+                        out.append((mod, fn.name, 'del:%s' % ast.unparse(t)[:60]))
             if isinstance(n, (ast.Assign, ast.AugAssign)):
                 targets = n.targets if isinstance(n, ast.Assign) else [n.target]
                 for t in targets:
-                    base = t
-                    has_attr = False
-                    while isinstance(base, (ast.Attribute, ast.Subscript)):
-                        has_attr = has_attr or isinstance(base, ast.Attribute)
-                        base = base.value
-                    if has_attr and isinstance(base, ast.Name) and base.id in live:
+                    base, has_attr = root(t)
+                    if isinstance(t, (ast.Attribute, ast.Subscript)) and ((has_attr and base in live) or base in views):
                         out.append((mod, fn.name, 'assign:%s' % ast.unparse(t)[:60]))
+                    elif isinstance(n, ast.AugAssign) and isinstance(t, ast.Name) and t.id in views:
+                        out.append((mod, fn.name, 'augassign:%s' % t.id))   # `view += ...` works in place on arrays / lists
 
-        def visit_block(stmts, live):
-            """flow-sensitive along a statement list: `x = <new object>` makes x a local from there on (in this block and below)"""
+        def visit_block(stmts, live, views=()):
+            """flow-sensitive along a statement list: `x = <new object>` makes x a local from there on (in this block and below);
+            `v = x.attr...` (no call) makes v a view of the caller's object"""
             live = set(live)
+            views = set(views)
             for st in stmts:
                 if isinstance(st, (ast.FunctionDef, ast.AsyncFunctionDef, ast.ClassDef)):
                     continue
@@ -69,17 +110,24 @@ def scan(path, mod):
                         v = getattr(st, field, None)
                         if v is not None:
                             for e in (v if isinstance(v, list) else [v]):
-                                visit_expr_stmt(e, live)
+                                visit_expr_stmt(e, live, views)
                     for field in ('body', 'orelse', 'finalbody'):
-                        visit_block(getattr(st, field, []) or [], live)
+                        visit_block(getattr(st, field, []) or [], live, views)
                     for h in getattr(st, 'handlers', []) or []:
-                        visit_block(h.body, live)
+                        visit_block(h.body, live, views)
                     continue
-                visit_expr_stmt(st, live)
+                visit_expr_stmt(st, live, views)
                 if isinstance(st, ast.Assign):
+                    vbase, vattr = root(st.value)
+                    is_view = isinstance(st.value, (ast.Attribute, ast.Subscript)) and ((vbase in live and vattr) or vbase in views)
                     for t in st.targets:
-                        if isinstance(t, ast.Name) and t.id in live and not (isinstance(st.value, ast.Name) and st.value.id == t.id):
-                            live.discard(t.id)
+                        if isinstance(t, ast.Name):
+                            if is_view:
+                                views.add(t.id)
+                            else:
+                                views.discard(t.id)
+                            if t.id in live and not (isinstance(st.value, ast.Name) and st.value.id == t.id):
+                                live.discard(t.id)
         visit_block(fn.body, handed)
     return out
 
@@ -92,6 +140,7 @@ def main():
     sites = []
     nfun = 0
     try:
+        FRESH_PROPS.update(fresh_properties(src))
         for f in files:
             mod = os.path.relpath(f, os.path.join(src, 'pygaps'))[:-3].replace('/', '.')
             tree = ast.parse(open(f, encoding='utf8').read())
